@@ -67,9 +67,13 @@ fn config(args: &[String]) -> BatchConfig {
 
 fn with_world<R>(id: &str, f: impl FnOnce(&dyn Dispatch) -> R) -> Option<R> {
     match id {
+        #[cfg(feature = "c13")]
         "C13" => Some(f(&c13::C13::new())),
+        #[cfg(feature = "c18")]
         "C18" => Some(f(&c18::C18::new())),
+        #[cfg(feature = "c19")]
         "C19" => Some(f(&c19::C19::new())),
+        #[cfg(feature = "c20")]
         "C20" => Some(f(&c20::C20::new())),
         _ => None,
     }
